@@ -254,6 +254,13 @@ func (k Keeper) CreateVestingAccount(ctx sdk.Context, fromAddress string, toAddr
 		return err
 	}
 
+	if from.Equals(to) {
+		// the new account would be created over the sender's own address and then pay itself:
+		// for a sender that has no account yet the bank panics on the locked-coins arithmetic
+		k.Logger(ctx).Debug("create vesting account sender and recipient are the same", "address", fromAddress)
+		return sdkerrors.Wrapf(types.ErrParam, "create vesting account - from address and to address must differ: %s", fromAddress)
+	}
+
 	if err = bk.IsSendEnabledCoins(ctx, amount...); err != nil {
 		k.Logger(ctx).Debug("create vesting account send coins disabled", "error", err.Error())
 		return sdkerrors.Wrap(err, "create vesting account - send coins disabled")
